@@ -660,7 +660,8 @@ static void DecodeLevel(Word Index) {
         return;
     }
 
-    l = EvalStrIntExpression(&ArgStr[1], Int8, &OK);
+    /* the level is a two bit field: 0010 0000 0000 01nn */
+    l = EvalStrIntExpression(&ArgStr[1], UInt2, &OK);
     if (!OK) {
         return;
     }
